@@ -773,6 +773,26 @@ func (l *Ledger) AllHoldings() map[string]map[string]*big.Int {
 	return all
 }
 
+// AllHoldingsAt is AllHoldings of the state committed at height h without the unlocking stake and undelegating amounts
+// recorded for a height in 2..h: the block that pays them has passed and they will not be visited again, so they are
+// no longer something the account will get (block 1 runs no block-end staking hooks: its entries are left in).
+func (l *Ledger) AllHoldingsAt(h int64) map[string]map[string]*big.Int {
+	all := map[string]map[string]*big.Int{}
+	for _, e := range l.Entries {
+		if !e.InHoldings {
+			continue
+		}
+		if (e.Class == StakeUnlocking || e.Class == Undelegating) && e.Height >= 2 && e.Height <= h {
+			continue
+		}
+		if all[e.Owner] == nil {
+			all[e.Owner] = map[string]*big.Int{}
+		}
+		addTo(all[e.Owner], e.Cur, e.Amt)
+	}
+	return all
+}
+
 // HoldingsByClass is Holdings split by class ("<cur>/<class>").
 func (l *Ledger) HoldingsByClass(owner string) map[string]*big.Int {
 	h := map[string]*big.Int{}
